@@ -38,3 +38,51 @@ Print Assumptions C11_brackets_ietf.
 Example C11_example : midp_of Google (1700000000, 999999999) = 1700000000999999
                       /\ midp_of RfcDraft13 (1700000000, 999999999) = 1700000000.
 Proof. split; vm_compute; reflexivity. Qed.
+
+(* ---- what a reply actually carries ---- *)
+Require Import RV.Model.Tag RV.Model.Message RV.Model.Merkle RV.Model.Server RV.Spec.RefCodec
+        RV.Spec.MerkleGoals RV.Spec.RefVerify RV.Spec.ServerGoals RV.Proofs.MidpointFacts.
+
+(* the signed response inside every specified reply decodes (reference decoder) to a message whose
+   MIDP is the batch's clock reading converted to the protocol's unit and whose RADI is the
+   protocol's five seconds; the reply's SIG is the delegated key's signature over exactly these bytes *)
+Theorem C11_signed_reading :
+  forall H ed_pk ed_sign, HashLen H ->
+  forall v lt ok now reqs i, reqs <> [] ->
+    let m := reply_msg H ed_pk ed_sign v lt ok now reqs i in
+    exists srep fields,
+      rget m SREP = Some srep
+      /\ rget m SIG = Some (ed_sign ok (srep_prefix v ++ srep))
+      /\ ref_decode srep = Some fields
+      /\ rget fields MIDP = Some (u64le (midp_of v now))
+      /\ rget fields RADI = Some (u32le (radi_of v)).
+Proof. exact signed_reading. Qed.
+Print Assumptions C11_signed_reading.
+
+(* one clock reading per batch: all replies of a batch carry the same signed response *)
+Theorem C11_once_per_batch :
+  forall H ed_pk ed_sign v lt ok now reqs i j,
+    rget (reply_msg H ed_pk ed_sign v lt ok now reqs i) SREP = rget (reply_msg H ed_pk ed_sign v lt ok now reqs j) SREP
+    /\ rget (reply_msg H ed_pk ed_sign v lt ok now reqs i) SIG = rget (reply_msg H ed_pk ed_sign v lt ok now reqs j) SIG.
+Proof. exact one_reading_per_batch. Qed.
+Print Assumptions C11_once_per_batch.
+
+(* ... and a fresh one for each batch of a drain: batch k of one wake-up is built from reading
+   clk k, taken at that iteration of the loop (C09_drain: the server emits exactly this) *)
+Theorem C11_fresh_reading_per_batch :
+  forall H ed_pk ed_sign fuel n srv lt oi oc clk k queue,
+    spec_drain_sent H ed_pk ed_sign (S fuel) n srv lt oi oc clk k queue
+    = spec_batch_sent H ed_pk ed_sign srv lt oi oc (clk k) (firstn n queue)
+      ++ (if (length queue <? n)%nat then []
+          else spec_drain_sent H ed_pk ed_sign fuel n srv lt oi oc clk (S k) (skipn n queue)).
+Proof. exact drain_uses_batch_clock. Qed.
+Print Assumptions C11_fresh_reading_per_batch.
+
+(* ---- tie to the source: the integer literals of the functions this property's model stands for
+   (private constants, bounds, unit factors; the files are SiteMap.files_C11) are today the ones the
+   model was written against. Gen/Sites.v num_literals is regenerated from /repo on every run; a
+   changed, added or removed number in a modelled function breaks this obligation ---- *)
+Require RV.Gen.Sites RV.Model.SiteMap.
+Theorem C11_literals_reviewed : RV.Model.SiteMap.literals_ok RV.Model.SiteMap.files_C11.
+Proof. repeat constructor. Qed.
+Print Assumptions C11_literals_reviewed.
